@@ -56,6 +56,9 @@ type End struct {
 	eofStuck  bool // the inbound stream has reported its end: every further Recv is io.EOF
 
 	OnSend func(e *End, rec []byte) // observation hook, called at Send entry
+
+	CloseErr bool // Close does close the channel but reports an error
+	kick     int  // fault kind to fire on the Recv that is pending (or next)
 }
 
 // NewPipe returns two connected ends.
@@ -178,9 +181,13 @@ func (e *End) Recv() ([]byte, error) {
 		err = ErrInjected
 	} else {
 		rt.Block("sim:recv", func() bool {
-			return len(e.in) > 0 || e.peerClosed || (e.closed && e.CloseUnblocks)
+			return len(e.in) > 0 || e.peerClosed || (e.closed && e.CloseUnblocks) || e.kick != 0
 		})
 		switch {
+		case e.kick != 0:
+			e.fired(e.kick)
+			e.kick = 0
+			err = ErrInjected
 		case e.closed && e.CloseUnblocks:
 			err = fmt.Errorf("read %s: %w", e.Name, net.ErrClosed)
 		case len(e.in) > 0:
@@ -218,8 +225,15 @@ func (e *End) Close() error {
 	e.closed = true
 	e.peer.peerClosed = true
 	e.closeBusy--
+	if e.CloseErr {
+		e.r.Fault("close-returns-error")
+		return ErrInjected
+	}
 	return nil
 }
+
+// Kick makes the pending (or next) Recv on this end fail with ErrInjected.
+func (e *End) Kick() { e.kick = fRecvErr }
 
 // Pending reports the number of records waiting to be received on this end.
 func (e *End) Pending() int { return len(e.in) }
